@@ -152,6 +152,46 @@ pub enum InterpolateError {
 ///  - Types should be annotated to ensure type inference does not break
 /// the contract by accident
 unsafe fn cast_unchecked<A, B>(a: A) -> B {
+    #[cfg(ndarray_interp_verif)]
+    verif_hooks::on_cast::<A, B>();
     let ptr = &*ManuallyDrop::new(a) as *const A as *const B;
     unsafe { ptr.read() }
+}
+
+/// Verification hooks, compiled only with `--cfg ndarray_interp_verif`.
+///
+/// They record every use of [`cast_unchecked`] together with the names, sizes and
+/// alignments of the source and destination types so that an external checker can
+/// confirm that the cast only ever relabels identical types.
+#[cfg(ndarray_interp_verif)]
+pub mod verif_hooks {
+    use std::sync::atomic::{AtomicUsize, Ordering};
+    use std::sync::Mutex;
+
+    static CASTS: AtomicUsize = AtomicUsize::new(0);
+    static MISMATCHES: Mutex<Vec<String>> = Mutex::new(Vec::new());
+
+    pub(crate) fn on_cast<A, B>() {
+        CASTS.fetch_add(1, Ordering::SeqCst);
+        let (na, nb) = (std::any::type_name::<A>(), std::any::type_name::<B>());
+        let same = na == nb
+            && std::mem::size_of::<A>() == std::mem::size_of::<B>()
+            && std::mem::align_of::<A>() == std::mem::align_of::<B>();
+        if !same {
+            MISMATCHES
+                .lock()
+                .unwrap_or_else(|e| e.into_inner())
+                .push(format!("{na} -> {nb}"));
+        }
+    }
+
+    /// number of calls of `cast_unchecked` so far
+    pub fn cast_count() -> usize {
+        CASTS.load(Ordering::SeqCst)
+    }
+
+    /// every cast so far whose source and destination type differed
+    pub fn cast_mismatches() -> Vec<String> {
+        MISMATCHES.lock().unwrap_or_else(|e| e.into_inner()).clone()
+    }
 }
